@@ -1303,6 +1303,23 @@ func r4apply(p *Prog, s *r4state, instr ssa.Instruction, rp ssa.Value, L ssa.Val
 		s.unver[usesLim] = true
 		return
 	}
+	// skipRest(r, lr): a helper of the module that is handed the reader and its limited view and discards exactly what
+	// the view has left (r.Discard(int(lr.N)), an error when the stream ends first)
+	if usesLim != nil && usesR && !c.Call.IsInvoke() {
+		if h := c.Call.StaticCallee(); h != nil && h.Blocks != nil && strings.HasPrefix(funcPkgPath(h), modPath) {
+			li := -1
+			for i, a := range c.Call.Args {
+				if a == usesLim || strip(a) == usesLim {
+					li = i
+				}
+			}
+			if li >= 0 && drainsLimited(h, rIdx, li) {
+				s.cons = affAdd(s.cons, s.lims[usesLim])
+				delete(s.lims, usesLim)
+				return
+			}
+		}
+	}
 	if !usesR {
 		return
 	}
@@ -1435,4 +1452,80 @@ func limitedReaderField(addr ssa.Value) string {
 		return fv.Name()
 	}
 	return ""
+}
+
+// drainsLimited: h(…, r, …, lr, …) consumes from r exactly what the limited reader lr has left, or fails: its only
+// use of r is one Discard of int(lr.N); a return that can carry a nil error is reached either under lr.N <= 0 (nothing
+// left) or with the Discard's own error (bufio.Reader.Discard reports an error when it skips fewer bytes than asked).
+func drainsLimited(h *ssa.Function, ri, li int) bool {
+	if ri >= len(h.Params) || li >= len(h.Params) || h.Signature.Results().Len() != 1 || !isErrorType(h.Signature.Results().At(0).Type()) {
+		return false
+	}
+	rp, lp := h.Params[ri], h.Params[li]
+	isLeft := func(v ssa.Value) bool {
+		// lr.N
+		ld, ok := stripIntConv(v).(*ssa.UnOp)
+		if cv, isCv := v.(*ssa.Convert); isCv && !ok {
+			ld, ok = cv.X.(*ssa.UnOp)
+		}
+		if !ok || ld.Op != token.MUL {
+			return false
+		}
+		fa, ok := ld.X.(*ssa.FieldAddr)
+		return ok && limitedReaderField(fa) == "N" && fa.X == ssa.Value(lp)
+	}
+	var discard *ssa.Call
+	okUses := true
+	for _, ref := range *rp.Referrers() {
+		c, ok := ref.(*ssa.Call)
+		if !ok {
+			if _, isDbg := ref.(*ssa.DebugRef); !isDbg {
+				okUses = false
+			}
+			continue
+		}
+		if isStdCall(c, "bufio", "Reader", "Discard") && discard == nil && isLeft(c.Call.Args[1]) {
+			discard = c
+			continue
+		}
+		okUses = false
+	}
+	if !okUses || discard == nil {
+		return false
+	}
+	derr := extractOf(discard, 1)
+	for _, ret := range returnsOf(h) {
+		ev := retResults(ret)[0]
+		if isNilConst(ev) {
+			// nothing left: dominated by lr.N <= 0
+			okG := false
+			for _, g := range guardsOf(ret.Block()) {
+				if op, x, y, okc := cmpFact(g); okc && isLeft(x) {
+					if k, isk := constInt(y); isk && k == 0 && (op == token.LEQ || op == token.EQL) {
+						okG = true
+					}
+				}
+			}
+			if !okG {
+				return false
+			}
+			continue
+		}
+		// the Discard's error, possibly with io.EOF replaced by io.ErrUnexpectedEOF
+		okE := derr != nil && derivesOnlyFrom(ev, func(v ssa.Value) bool {
+			if v == ssa.Value(derr) {
+				return true
+			}
+			if ld, ok := v.(*ssa.UnOp); ok && ld.Op == token.MUL {
+				if g, isG := ld.X.(*ssa.Global); isG && (g.Name() == "ErrUnexpectedEOF" || g.Name() == "EOF") {
+					return true
+				}
+			}
+			return false
+		})
+		if !okE || !instrDominates(discard, ret) {
+			return false
+		}
+	}
+	return true
 }
